@@ -30,29 +30,10 @@ pub fn api_ids(s: Suite, seed: u64) -> Vec<(String, Option<Vec<u8>>)> {
 }
 
 // ------------------------------------------------------------------------------------------------------------------
-// the 14-call alphabet for history independence. Each call returns a digest of its observable result: the bytes for
-// deterministic operations, the verdict for randomised ones.
-pub const NCALLS: usize = 14;
-pub const CALL_NAMES: [&str; NCALLS] = ["generators(5,API_ID)/sha", "generators(5,API_ID_BLIND)/sha", "generators(8,API_ID)/sha", "generators(3,API_ID)/shake", "sign/sha", "sign/shake", "verify/sha", "verify/shake", "proof_gen+proof_verify/sha", "proof_gen+proof_verify/shake", "commit+validate/sha", "blind_sign(no commitment)/sha", "keygen/sha", "messages_to_scalars/shake"];
-
-pub fn call(i: usize) -> String {
-    let (sha, shake) = (Suite::Sha256, Suite::Shake256);
-    let hd = |o: O<Vec<u8>>| match o { O::Ok(b) => hex::encode(b), O::Err(e) => format!("Err({})", e), O::Panic(p) => format!("PANIC({})", p) };
-    let gens = |s: Suite, n: usize, api: Vec<u8>| hd(z(s).generators(n, Some(&api)).map(|g| g.concat()));
-    let msgs = vec![b"a".to_vec(), b"bb".to_vec()];
-    let k = |s| key(s, "k0");
-    match i {
-        0 => gens(sha, 5, sha.api_id()), 1 => gens(sha, 5, sha.api_id_blind()), 2 => gens(sha, 8, sha.api_id()), 3 => gens(shake, 3, shake.api_id()),
-        4 | 5 => { let s = if i == 4 { sha } else { shake }; hd(z(s).sign(&k(s).sk, &k(s).pk, Some(b"h"), Some(&msgs))) }
-        6 | 7 => { let s = if i == 6 { sha } else { shake }; let sk = refbbs::octets_to_scalar_strict(&k(s).sk).unwrap(); let sig = refbbs::sign(s, &sk, &k(s).pk.clone().try_into().unwrap(), b"h", &msgs).unwrap(); format!("{:?}", z(s).verify(&k(s).pk, &sig, Some(b"h"), Some(&msgs)).kind()) }
-        8 | 9 => { let s = if i == 8 { sha } else { shake }; let sk = refbbs::octets_to_scalar_strict(&k(s).sk).unwrap(); let sig = refbbs::sign(s, &sk, &k(s).pk.clone().try_into().unwrap(), b"h", &msgs).unwrap();
-            match z(s).proof_gen(&k(s).pk, &sig, Some(b"h"), Some(b"p"), Some(&msgs), Some(&[1])) { O::Ok(p) => format!("len={} verify={}", p.len(), z(s).proof_verify(&k(s).pk, &p, Some(b"h"), Some(b"p"), Some(&msgs[1..]), Some(&[1])).kind()), o => o.describe() } }
-        10 => match z(sha).commit(Some(&msgs)) { O::Ok((c, _)) => format!("len={} validate={}", c.len(), z(sha).deserialize_and_validate_commit(Some(&c), 3).kind()), o => o.describe() },
-        11 => hd(z(sha).blind_sign(&k(sha).sk, &k(sha).pk, None, Some(b"h"), Some(&msgs))),
-        12 => hd(z(sha).keygen(&[9u8; 40], Some(b"info"), None).map(|(a, b)| [a, b].concat())),
-        _ => hd(z(shake).messages_to_scalars(&msgs, &shake.api_id()).map(|v| v.concat())),
-    }
-}
+// history independence uses the collision alphabet of hist.rs
+pub use crate::hist::call;
+pub const NCALLS: usize = crate::hist::CALLS.len();
+pub fn call_name(i: usize) -> &'static str { crate::hist::CALLS[i].0 }
 
 pub fn child_main(args: &[String], out: &mccore::Out) {
     let calls: Vec<usize> = args.get(0).map(|x| x.split(',').filter_map(|t| t.parse().ok()).collect()).unwrap_or_default();
@@ -72,12 +53,12 @@ fn census() -> serde_json::Value {
 
 pub fn run(env: &Env) {
     let seed = env.ctx.seed;
-    env.ctx.set_rule("byte-for-byte against the independent reference: KeyGen over |ikm| in {0,31,32,33,64,255,256} x key_info in {None,0,1,255,256,65535,65536 B} x key_dst in {None,1,255,256 B} (incl. the three refusal rules) + SkToPk; Generators::create for EVERY count 0..=200 (thorough 0..=1100) x 7 api_ids; hash_to_scalar for EVERY message length 0..=300 x dst length {1,16,254,255,256}; messages_to_scalars over the message letters x api_ids; sign over a shape grid; blind_sign over (L,M) in [0..=2]^2; update_signature against the reference formula; accept/reject decisions on honest and mutated artefacts; history independence: ALL sequences of length <= 3 over a 14-call alphabet (2954 histories) - each step's result must equal the result of that call from the initial state (fresh process); length <= 2 histories additionally each in its own fresh process; 16-thread concurrent battery (SAMPLED schedules). State = one (operation, input shape) or one history prefix; non-trivial = implementation output compared with an independently computed value.");
+    env.ctx.set_rule("byte-for-byte against the independent reference: KeyGen over |ikm| in {0,31,32,33,64,255,256} x key_info in {None,0,1,255,256,65535,65536 B} x key_dst in {None,1,255,256 B} (incl. the three refusal rules) + SkToPk; Generators::create for EVERY count 0..=200 (thorough 0..=1100) x 7 api_ids; hash_to_scalar for EVERY message length 0..=300 x dst length {1,16,254,255,256}; messages_to_scalars over the message letters x api_ids; sign over a shape grid; blind_sign over (L,M) in [0..=2]^2; update_signature against the reference formula; accept/reject decisions on honest and mutated artefacts; history independence: ALL call sequences of length <= 2 over the 41-call COLLISION alphabet (calls that differ in exactly one of header / message count / message / key / suite / api_id / committed count / L / ph / disclosure) and ALL length-3 sequences within a family (quick; thorough: all 41^3) - each step's result must equal the result of that call from the initial state (fresh process); length <= 2 histories additionally each in its own fresh process; 16-thread concurrent battery (SAMPLED schedules). State = one (operation, input shape) or one history prefix; non-trivial = implementation output compared with an independently computed value.");
     env.ctx.assume("empty domain-separation tags are outside RFC 9380's domain (tags MUST have non-zero length) and are not judged");
     env.ctx.extra("sync_census", census());
     env.ctx.extra("schedule_claim", json!("zkryptium contains no synchronisation operation (see sync_census), so interleavings differ only in thread identity; all call orders up to length 3 are enumerated; the 16-thread run samples schedules"));
     #[derive(Clone)]
-    enum Job { Keygen(Suite), Gens(Suite, usize), H2s(Suite), Maps(Suite), Sign(Suite), Blind(Suite), Update(Suite), Decisions(Suite), History(usize), HistoryFresh, Threads }
+    enum Job { Keygen(Suite), Gens(Suite, usize), H2s(Suite), Maps(Suite), Sign(Suite), Blind(Suite), Update(Suite), Decisions(Suite), History(usize), HistoryFresh(usize), Threads }
     let mut jobs: Vec<(String, Job)> = Vec::new();
     for s in suites() {
         jobs.push((format!("{}/keygen", s.name()), Job::Keygen(s)));
@@ -90,7 +71,7 @@ pub fn run(env: &Env) {
         jobs.push((format!("{}/decisions", s.name()), Job::Decisions(s)));
     }
     for first in 0..NCALLS { jobs.push((format!("history/first-call-{}", first), Job::History(first))); }
-    jobs.push(("history/fresh-process".into(), Job::HistoryFresh));
+    for first in 0..NCALLS { jobs.push((format!("history/fresh-process/first-call-{}", first), Job::HistoryFresh(first))); }
     jobs.push(("threads16".into(), Job::Threads));
     // baseline: every call from the initial state, each in its own fresh process
     let exe = std::env::current_exe().unwrap();
@@ -101,6 +82,8 @@ pub fn run(env: &Env) {
     };
     let baseline: Vec<String> = (0..NCALLS).map(|c| fresh(&[c]).map(|v| v[0].clone()).unwrap_or_else(|| "child failed".into())).collect();
     if baseline.iter().any(|b| b == "child failed") { env.machinery("C10 baseline child process failed"); return; }
+    // the initial-state value of every verdict call is also pinned by the reference (the fixed inputs were made by it)
+    for c in 0..NCALLS { if let Some(e) = crate::hist::expected(c) { env.ctx.step(); if baseline[c] != e { env.ctx.violation(&format!("C10:initial-state:{}", call_name(c)), &format!("from the initial state {} returned {} (the reference statement says {})", call_name(c), baseline[c], e), env.case("history/baseline", json!({"call": call_name(c)}))); } } }
     let nmax = if env.thorough() { 1100 } else { 200 };
     par_for(&jobs, |_, (id, job)| {
         if !env.want(id) || env.ctx.out_of_time() { return; }
@@ -245,28 +228,33 @@ pub fn run(env: &Env) {
                 }
             }
             Job::History(first) => {
-                // all histories of length <= 3 starting with `first`, executed as call sequences in this process
-                for len in 0..=2usize { for rest in tuples(NCALLS, len) {
-                    let hist: Vec<usize> = std::iter::once(first).chain(rest.into_iter()).collect();
+                // histories starting with `first`: ALL of length <= 2; length 3: all triples within one family (quick) / all triples (thorough)
+                let fam = |c: usize| crate::hist::CALLS[c].1;
+                let mut hists: Vec<Vec<usize>> = vec![vec![first]];
+                for b in 0..NCALLS { hists.push(vec![first, b]); for c in 0..NCALLS { if env.thorough() || (fam(first) == fam(b) && fam(b) == fam(c)) { hists.push(vec![first, b, c]); } } }
+                for hist in hists {
                     for (step, &c) in hist.iter().enumerate() {
                         let r = call(c);
                         env.ctx.step();
                         if step + 1 == hist.len() { env.ctx.state(&[b"history", &hist.iter().map(|&x| x as u8).collect::<Vec<u8>>()]); }
                         if r != baseline[c] {
-                            env.ctx.violation(&format!("C10:history-dependence:{}", CALL_NAMES[c]), &format!("after history {:?} the call {} returned a value different from the one it returns from the initial state", hist[..step].iter().map(|&x| CALL_NAMES[x]).collect::<Vec<_>>(), CALL_NAMES[c]), env.case(id, json!({"history": hist.iter().map(|&x| CALL_NAMES[x]).collect::<Vec<_>>(), "step": step, "got": r.chars().take(120).collect::<String>(), "from_initial_state": baseline[c].chars().take(120).collect::<String>()})));
+                            env.ctx.violation(&format!("C10:history-dependence:{}", call_name(c)), &format!("after history {:?} the call {} returned a value different from the one it returns from the initial state", hist[..step].iter().map(|&x| call_name(x)).collect::<Vec<_>>(), call_name(c)), env.case(id, json!({"history": hist.iter().map(|&x| call_name(x)).collect::<Vec<_>>(), "step": step, "got": r.chars().take(120).collect::<String>(), "from_initial_state": baseline[c].chars().take(120).collect::<String>()})));
                         }
                     }
                     env.ctx.class(&format!("history:len{}", hist.len())); env.ctx.trace();
-                    if hist == vec![first, 1, 2] && first == 0 { env.ctx.sample(json!({"history": hist.iter().map(|&x| CALL_NAMES[x]).collect::<Vec<_>>()})); }
-                } }
+                    if hist == vec![13, 14, 16] { env.ctx.sample(json!({"history": hist.iter().map(|&x| call_name(x)).collect::<Vec<_>>()})); }
+                }
             }
-            Job::HistoryFresh => {
-                // every history of length 2, each in its own fresh process (the initial state is really initial)
-                for h in tuples(NCALLS, 2) {
+            Job::HistoryFresh(first) => {
+                // every within-family history of length 2 (thorough: every pair), each in its own fresh process (the initial state is really initial)
+                let fam = |c: usize| crate::hist::CALLS[c].1;
+                for b in 0..NCALLS {
+                    if !env.thorough() && fam(first) != fam(b) { continue; }
+                    let h = vec![first, b];
                     env.ctx.state(&[b"history-fresh", &h.iter().map(|&x| x as u8).collect::<Vec<u8>>()]);
                     env.ctx.steps(2);
                     match fresh(&h) {
-                        Some(res) => for (st, (&c, r)) in h.iter().zip(res.iter()).enumerate() { if *r != baseline[c] { env.ctx.violation(&format!("C10:history-dependence:{}", CALL_NAMES[c]), &format!("fresh process, history {:?}: step {} differs from the initial-state value", h.iter().map(|&x| CALL_NAMES[x]).collect::<Vec<_>>(), st), env.case(id, json!({"history": h}))); } },
+                        Some(res) => for (st, (&c, r)) in h.iter().zip(res.iter()).enumerate() { if *r != baseline[c] { env.ctx.violation(&format!("C10:history-dependence:{}", call_name(c)), &format!("fresh process, history {:?}: step {} differs from the initial-state value", h.iter().map(|&x| call_name(x)).collect::<Vec<_>>(), st), env.case(id, json!({"history": h}))); } },
                         None => env.machinery("c10 child failed"),
                     }
                     env.ctx.class("history:fresh-process:len2"); env.ctx.trace();
@@ -274,7 +262,7 @@ pub fn run(env: &Env) {
             }
             Job::Threads => {
                 let bar = std::sync::Barrier::new(16);
-                std::thread::scope(|sc| { for t in 0..16usize { let bar = &bar; let baseline = &baseline; sc.spawn(move || { for round in 0..3 { bar.wait(); for j in 0..NCALLS { let c = (j * 5 + t + round) % NCALLS; let r = call(c); env.ctx.step(); if r != baseline[c] { env.ctx.violation(&format!("C10:concurrent-divergence:{}", CALL_NAMES[c]), &format!("thread {} round {}: {} differs from its initial-state value", t, round, CALL_NAMES[c]), env.case("threads16", json!({"thread": t, "round": round}))); } } } }); } });
+                std::thread::scope(|sc| { for t in 0..16usize { let bar = &bar; let baseline = &baseline; sc.spawn(move || { for round in 0..3 { bar.wait(); for j in 0..NCALLS { let c = (j * 5 + t + round) % NCALLS; let r = call(c); env.ctx.step(); if r != baseline[c] { env.ctx.violation(&format!("C10:concurrent-divergence:{}", call_name(c)), &format!("thread {} round {}: {} differs from its initial-state value", t, round, call_name(c)), env.case("threads16", json!({"thread": t, "round": round}))); } } } }); } });
                 env.ctx.state(&[b"threads16"]); env.ctx.class("threads16 (sampled schedules)"); env.ctx.trace();
             }
         }
